@@ -194,6 +194,7 @@ class ChainModule(object):
                     n = handoff_positions(blk, link)
                     for role in ["p"] + ["q%d" % j for j in range(n)]:
                         self._emit_handoff(k, blk, link, role)
+        self._emit_readers()
         self._emit_tree()
         src = "".join(self.lines)
         linecache.cache[CHAIN_FILE] = (len(src), None, list(self.lines), CHAIN_FILE)
@@ -260,6 +261,49 @@ class ChainModule(object):
         self._add("")
         self._add("")
         self.info[name] = info
+
+    # caller-side functions through which the outcome of a chain is delivered (not task levels, but generated code, so
+    # that frames of an EARLIER delivery that leak into a later one are visible to the frame oracle)
+    READERS = ["RD_A", "RD_B", "RD_CALL", "RD_F"]
+    DELIVERIES = ["RD_A", "RD_A", "RD_B", "RD_CALL", "RD_A", "RD_F"]
+
+    def _emit_readers(self):
+        for name, body in (("RD_A(t)", "return t.value()"), ("RD_B(t)", "return t.value()"),
+                           ("RD_CALL(t)", "return t()"), ("RD_F(t)", "return CHAIN[0]()")):
+            self._add("def %s:" % name)
+            self._add("    " + body)
+            self._add("")
+            self._add("")
+
+    def run_deliveries(self, names):
+        """the root task is created once; its outcome is read through RD_A (1st delivery), again through RD_A, through
+        another caller RD_B, through task() and once more through RD_A; finally the root function is called again
+        synchronously (RD_F, a fresh computation).  -> [(reader, value, exception, generated-code frames)]"""
+        reset_asynq()
+        ns = self.ns
+        ns["CHAIN"][:] = [ns[n] for n in names]
+        ns["HPROBE"] = None
+        del ns["STACKS"][:]
+        task = ns[names[0]].asynq()
+        out = []
+        for rd in self.DELIVERIES:
+            val = exc = None
+            frames = []
+            try:
+                val = ns[rd](task)
+            except BaseException as e:  # noqa
+                if isinstance(e, (KeyboardInterrupt, SystemExit, MemoryError)):
+                    raise
+                exc = e
+                tb = e.__traceback__
+                while tb is not None:
+                    co = tb.tb_frame.f_code
+                    if co.co_filename == CHAIN_FILE:
+                        frames.append((co.co_name, tb.tb_lineno))
+                    tb = tb.tb_next
+                tb = None
+            out.append((rd, val, exc, frames))
+        return out
 
     def _emit_helpers(self, k):
         self._add("@asynq()")
